@@ -6,6 +6,7 @@ import random
 
 import common
 import conc
+import render
 import tables
 import tlc
 
@@ -99,6 +100,39 @@ def big_scenarios(rnd, n):
     return scs
 
 
+def seq_part(res, wd, devs):
+    """Subscriptions across databases and disconnects (MC_Watch): sequential histories on the real node,
+    judged by NunKV group WATCH."""
+    rc, out, secs = tlc.run_tlc("MC_Watch.tla", "MC_Watch.cfg", workers=1, timeout=600, extra=["-coverage", "1"],
+                                stdout_path=os.path.join(wd, "mc_watch.out"))
+    if "No error has been found" not in out:
+        raise common.ToolError("MC_Watch did not complete cleanly:\n" + out[-3000:])
+    gen, distinct = tlc.stats(out)
+    a = "a"
+    pre = [render.step(a, {"op": "auth", "u": "admin", "tok": "adminpwd"}),
+           render.step(a, {"op": "create-db", "d": "d", "tok": "tok", "strategy": "none"}),
+           render.step(a, {"op": "create-db", "d": "e", "tok": "tok2", "strategy": "none"}),
+           render.step("wd", {"op": "use-db", "d": "d", "tok": "tok", "u": "-"}),
+           render.step("we", {"op": "use-db", "d": "e", "tok": "tok2", "u": "-"}),
+           render.step("wd", {"op": "set", "k": "k", "v": "v0"}),
+           render.step("we", {"op": "set", "k": "k", "v": "v0"}),
+           render.step("s1", {"op": "use-db", "d": "d", "tok": "tok", "u": "-"}),
+           render.step("s2", {"op": "use-db", "d": "d", "tok": "tok", "u": "-"})]
+    cases = [{"id": "sw%d" % i, "steps": pre + render.steps_of_hist(h)} for i, h in enumerate(tlc.extract_cases(out))]
+    swd = os.path.join(wd, "seq")
+    os.makedirs(swd, exist_ok=True)
+    tab = os.path.join(swd, "tables.json")
+    json.dump(tables.build(["k", "$connections", "$$token", "d", "e", "$admin"], ["tok", "tok2", "v0", "v1", "v2", "v3"], ["*"], []),
+              open(tab, "w"))
+    raws = common.run_cases_parallel("seq", cases, swd)
+    norm_path = os.path.join(swd, "norm.ndjson")
+    common.normalize_all(raws, norm_path)
+    o = common.validate_into(res, norm_path, "Trace_KV.tla", "Trace_KV.cfg", ["WATCH"], devs, tab, swd,
+                             {c["id"]: c for c in cases})
+    return {"model": "MC_Watch.tla", "states": distinct, "transitions": gen, "histories": len(cases),
+            "events_validated": o["events"]}
+
+
 def run(tier, seed):
     res = common.Result(PROP, tier, seed, "model_checking")
     wd = common.workdir(PROP)
@@ -121,8 +155,10 @@ def run(tier, seed):
     conc.normalize(raws, norm_path)
     out = common.validate_into(res, norm_path, "Trace_KVLin.tla", "Trace_KVLin.cfg", ["WATCH"], devs, tab,
                                os.path.join(wd, "watch"), by_id)
+    seq_cov = seq_part(res, wd, devs)
     res.coverage.update({
-        "states": dist + d2, "transitions": gen + g2,
+        "subscriptions_across_databases": seq_cov,
+        "states": dist + d2 + seq_cov["states"], "transitions": gen + g2 + seq_cov["transitions"],
         "model": "NunKVConc.tla (one module per scenario; complete interleavings / -simulate)",
         "scenarios": len(scs) + len(big),
         "traces_validated_against_impl": out["runs"], "events_validated": out["events"],
@@ -134,7 +170,9 @@ def run(tier, seed):
                 "while another client unsubscribes or disconnects (same and different key)}; two writers "
                 "with a passive subscriber; replicated write; TLC enumerates the interleavings of "
                 "NunKVConc, the scheduler forces them on the real code, and Trace_KVLin group WATCH judges "
-                "the notification obligations from call / linearisation / return indices",
+                "the notification obligations from call / linearisation / return indices; plus MC_Watch: every "
+                "(selection, watcher lists, closed sessions) x {watch, unwatch, unwatch-all, select the other "
+                "database, disconnect, write / remove in either database} sequentially, judged by NunKV group WATCH",
     })
     res.assumptions = ["a client never watches a key it already watches; fewer than 50 undrained lines",
                        "mutations are attributed to notifications by their (distinguishable) values"]
